@@ -88,10 +88,37 @@ func main() {
 		var edits []edit
 		var funcStack []string
 		importsSync := false
+		importsAtomic := false
 		for _, im := range f.Imports {
 			if im.Path.Value == `"sync"` {
 				importsSync = true
 			}
+			if im.Path.Value == `"sync/atomic"` {
+				importsAtomic = true
+			}
+		}
+		// hasAtomic: does the statement itself (not nested blocks / function literals) contain a
+		// sync/atomic operation?  atomic.XxxInt64(...) or x.Load() / Store / Add / Swap / CompareAndSwap
+		hasAtomic := func(st ast.Stmt) bool {
+			found := false
+			ast.Inspect(st, func(n ast.Node) bool {
+				switch x := n.(type) {
+				case *ast.BlockStmt, *ast.FuncLit:
+					return n == ast.Node(st)
+				case *ast.CallExpr:
+					if sel, ok := x.Fun.(*ast.SelectorExpr); ok {
+						if id, ok := sel.X.(*ast.Ident); ok && id.Name == "atomic" {
+							found = true
+						}
+						switch sel.Sel.Name {
+						case "Load", "Store", "CompareAndSwap", "Swap":
+							found = true
+						}
+					}
+				}
+				return !found
+			})
+			return found
 		}
 		curFunc := func() string {
 			if len(funcStack) == 0 {
@@ -120,9 +147,7 @@ func main() {
 					}
 					funcStack = append(funcStack, f.Name.Name+"."+name)
 					addYield(x.Body.Lbrace, "func")
-					for _, s := range x.Body.List {
-						walk(s)
-					}
+					walk(x.Body)
 					funcStack = funcStack[:len(funcStack)-1]
 					return false
 				case *ast.FuncLit:
@@ -131,6 +156,24 @@ func main() {
 					addYield(x.Body.Lbrace, "for")
 				case *ast.RangeStmt:
 					addYield(x.Body.Lbrace, "range")
+				case *ast.BlockStmt:
+					// atomics are synchronisation points: a preemption point before every statement
+					// that performs one (so that two atomic operations in consecutive statements can
+					// be separated by the scheduler)
+					if importsAtomic {
+						for _, st := range x.List {
+							switch st.(type) {
+							case *ast.ExprStmt, *ast.AssignStmt, *ast.IfStmt, *ast.ReturnStmt, *ast.IncDecStmt, *ast.SwitchStmt:
+								if hasAtomic(st) {
+									id := next
+									next++
+									sites = append(sites, site{ID: id, File: rel, Line: fset.Position(st.Pos()).Line, Kind: "atomic", Func: curFunc()})
+									o := off(st.Pos())
+									edits = append(edits, edit{o, o, fmt.Sprintf("__vh.Yield(%d); ", id)})
+								}
+							}
+						}
+					}
 				case *ast.CommClause:
 					// a send or receive that is the communication of a select case stays as it
 					// is (only its body is instrumented): select already is a non-blocking choice
